@@ -307,6 +307,39 @@ def check_layout(res, g):
                         decide("joined_segments", render(r, sub) == exp, nt, abcd=(a, b, c, d), got=render(r, sub), exp=exp)
 
 
+def check_multi_join(res, g):
+    """joined_segments with three (and four) disjoint intervals, all of them for short layouts"""
+    m, s = mk(g)
+    L = len(g)
+    has_gap = "-" in g
+    pts = range(L + 1)
+    for a in pts:
+        for b in range(a + 1, L + 1):
+            for c in range(b, L + 1):
+                for d in range(c + 1, L + 1):
+                    for e in range(d, L + 1):
+                        for f in range(e + 1, L + 1):
+                            segs = [(a, b), (c, d), (e, f)]
+                            if f < L and (L - f) >= 1 and (a + c + e) % 3 == 0:
+                                segs.append((f, L))  # sometimes a fourth, abutting segment
+                            try:
+                                r = m.joined_segments(segs)
+                            except Exception as ex:  # noqa: BLE001
+                                res.evals += 1
+                                res.witness(exc_mechanism("C08/joined_segments/three-or-more", ex), g=g, segs=segs, error=repr(ex)[:200], replay_case={"kind": "one-multijoin", "g": g})
+                                continue
+                            exp = "".join(g[x:y] for x, y in segs)
+                            sub = exp.replace("-", "")
+                            res.evals += 1
+                            res.count("op:joined_segments-multi")
+                            ngapped = sum(1 for x, y in segs if "-" in g[x:y])
+                            if has_gap and ngapped >= 2:
+                                res.sig("joined_segments-multi", len(segs), ngapped, pos_class(g, b), pos_class(g, c), pos_class(g, d), pos_class(g, e))
+                            got = render(r, sub)
+                            if got != exp or len(r) != len(exp):
+                                res.witness("C08/joined_segments/three-or-more", g=g, segs=segs, got=got, exp=exp, map=repr(r), replay_case={"kind": "one-multijoin", "g": g})
+
+
 def glen(p):
     d = {}
     pos = 0
@@ -558,6 +591,8 @@ def run_case(case):
         for n in range(case["lo"], case["hi"]):
             pat = "".join("-" if (n >> i) & 1 else "A" for i in range(L))
             check_layout(res, letters(pat))
+            if L <= 6:
+                check_multi_join(res, letters(pat))
         res.count("layouts", case["hi"] - case["lo"])
         res.sample({"layout": letters(pat)})
     elif kind == "pairs":
@@ -584,6 +619,8 @@ def run_case(case):
         for _ in range(case["n"]):
             check_fmap(res, rng)
             res.count("feature-maps")
+    elif kind == "one-multijoin":
+        check_multi_join(res, case["g"])
     elif kind == "one-layout":
         check_layout(res, case["g"])
     elif kind == "one-pair":
@@ -626,6 +663,18 @@ def check_random_layout(res, g, rng):
         decide("slice/in-range", render(sm, sub) == g[a:b], nt, ab=(a, b), got=render(sm, sub), exp=g[a:b])
     r = m.nucleic_reversed()
     decide("nucleic_reversed", render(r, s[::-1]) == g[::-1], ("rev",) if has_gap else None)
+    for _ in range(10):
+        k = rng.choice([3, 4, 5])
+        if len(pts) >= 2 * k:
+            cuts = sorted(rng.sample(pts, 2 * k))
+            segs = [(cuts[2 * i], cuts[2 * i + 1]) for i in range(k)]
+            try:
+                r = m.joined_segments(segs)
+                exp = "".join(g[x:y] for x, y in segs)
+                decide("joined_segments/three-or-more", render(r, exp.replace("-", "")) == exp, ("multi", k) if has_gap else None, segs=segs, got=render(r, exp.replace("-", "")), exp=exp)
+            except Exception as e:  # noqa: BLE001
+                res.evals += 1
+                res.witness(exc_mechanism("C08/joined_segments/three-or-more", e), g=g, segs=segs, error=repr(e)[:200])
     for _ in range(10):
         cuts = sorted(rng.sample(pts, min(len(pts), 4))) if len(pts) >= 4 else None
         if not cuts or cuts[0] == cuts[1] or cuts[2] == cuts[3]:
